@@ -235,3 +235,32 @@ func Minimal(c *Case, cfg *Config, k int) *Case {
 	d.Wat = Render(d.Seed, cfg, d)
 	return d
 }
+
+// HandmadeClass overrides the class label of handmade calls when non-empty.
+var HandmadeClass string
+
+// Handmade builds a one-function case from instruction lines (used to write
+// corpus reproducers by hand).  Class labels are computed like the generator's.
+func Handmade(cfg *Config, params, results, op string, exact, stateful bool, locals map[string]byte, body []string, calls ...[]uint64) *Case {
+	b := newFB("f0", params, results)
+	for n, t := range locals {
+		b.local(n, t)
+	}
+	b.I(body...)
+	f := b.fn(op, "handmade", exact, stateful)
+	c := &Case{Seed: 1}
+	c.Funcs = append(c.Funcs, *f)
+	c.Funcs = append(c.Funcs, Getters...)
+	for _, a := range calls {
+		cl := f.ClassOf(a)
+		if HandmadeClass != "" {
+			cl = HandmadeClass
+		}
+		c.Calls = append(c.Calls, Call{F: 0, Args: hexes(a), Class: cl})
+	}
+	for k := 0; k < 4; k++ {
+		c.Calls = append(c.Calls, Call{F: 1 + k, Class: "-"})
+	}
+	c.Wat = Render(c.Seed, cfg, c)
+	return c
+}
